@@ -10,7 +10,7 @@ from harness.drivers import c03 as drv
 def run(tier: str) -> int:
     chk = Check("C03", tier)
     scs, n_emitted = c02.scenarios(tier, chk, 5000 if tier == "quick" else 50000)
-    hows = ["built", "read", "rated", "from_osu", "edit_rewrite", "unsorted_bpms", "built"]
+    hows = ["built", "read", "rated", "from_osu", "edit_rewrite", "unsorted_bpms", "rated_odd"]
     scns = []
     for i, s in enumerate(scs):
         if not s["objs"]:
@@ -27,7 +27,7 @@ def run(tier: str) -> int:
                      tag=f"c03calc-{tier}")
     for j, s in enumerate(rnd):
         s["times"], s["starts"] = tm[s["id"]]["times"], tm[s["id"]]["starts"]
-        s["how"] = ["built", "rated", "read"][j % 3]
+        s["how"] = ["built", "rated", "read", "rated_odd"][j % 4]
         s["id"] = "rnd" + s["id"]
         scns.append(s)
     recs = pmap(drv.exec_write, scns)
